@@ -10,8 +10,9 @@
    codec built from an executable model of gzip decompression that is compared with the real zlib on every run (below).
    Only statements here; proofs are `exact <lemma>`. *)
 From Coq Require Import List Arith Bool NArith ZArith.
+From RxVerif Require Import Compress.ZstdFrame Compress.ZstdFrameProofs.
 From RxVerif Require Import Compress.Inflate Compress.InflateProofs Compress.DeflateEnc Compress.DeflateEncProofs Compress.DeflateLz Compress.DeflateLzProofs Compress.DeflateDyn Compress.DeflateDynProofs.
-From RxVerif Require Import Compress.Wrapper Compress.WrapperProofs Compress.InflateCodec.
+From RxVerif Require Import Compress.Wrapper Compress.WrapperProofs Compress.ZstdFrameCodec Compress.InflateCodec.
 Import ListNotations.
 
 (* wrapper logic, any codec: every output of compressor.compress is forwarded while its chunk is
@@ -209,6 +210,54 @@ Print Assumptions C16_gzip_model_stream_is_a_valid_file.
 Example C16_gunzip_example :
   gunzip (gzip_stored [104; 105]%Z) = Done [104; 105]%Z [] /\ gunzip (firstn 20 (gzip_stored [104; 105]%Z)) = NeedMore.
 Proof. vm_compute. split; reflexivity. Qed.
+
+(* ---------------------------------------------------------------------------------------------
+   zstd: the FRAME STRUCTURE is modelled (Compress/ZstdFrame.v, RFC 8878: magic, frame header descriptor with window
+   descriptor / dictionary id / content size, block headers with last-block bit, type and size, optional checksum,
+   skippable frames) - enough to decide complete / incomplete / invalid without decoding compressed blocks - and compared
+   with the real zstandard library on the streams the REAL zstd.compress wrapper emits, on their strict prefixes and with
+   trailing bytes (C16Corr.CZstdScan), every run.  Proved of the model: the same prefix facts as for gzip - a complete
+   frame stays complete under appended bytes, a strict prefix of a complete frame is incomplete (never complete, never
+   invalid): truncation is never mistaken for completion; an encoder of raw-block frames round-trips; and the laws H1-H3
+   for the codec built from it (for both wrapper variants; `once` = the real decompressobj refuses any call after the
+   end of the frame, which is why the repaired wrapper skips empty chunks).
+   Not modelled: the CONTENT of compressed blocks (FSE / Huffman), the XXH64 checksum value.
+   --------------------------------------------------------------------------------------------- *)
+Theorem C16_zstd_complete_frame_stays_complete : forall p r,
+  zstd_scan p = ZDone r -> forall x, zstd_scan (p ++ x) = ZDone (r ++ x).
+Proof. exact zstd_scan_extend_done. Qed.
+Print Assumptions C16_zstd_complete_frame_stays_complete.
+Theorem C16_zstd_truncated_is_needmore : forall p x,
+  zstd_scan (p ++ x) = ZDone [] -> x <> [] -> zstd_scan p = ZNeedMore.
+Proof. exact zstd_scan_truncated_needmore. Qed.
+Print Assumptions C16_zstd_truncated_is_needmore.
+Theorem C16_zstd_invalid_stays_invalid : forall p, zstd_scan p = ZBad -> forall x, zstd_scan (p ++ x) = ZBad.
+Proof. exact zstd_scan_extend_bad. Qed.
+Print Assumptions C16_zstd_invalid_stays_invalid.
+Theorem C16_zstd_scan_total : forall s, zstd_scan s <> ZOutOfFuel.
+Proof. exact zstd_scan_never_out_of_fuel. Qed.
+Print Assumptions C16_zstd_scan_total.
+Theorem C16_zstd_raw_frames_roundtrip : forall d,
+  zstd_scan (zstd_raw d) = ZDone [] /\ zstd_unraw (zstd_raw d) = ZstdFrame.Done d [].
+Proof. exact (fun d => conj (zstd_scan_raw d) (zstd_unraw_raw d)). Qed.
+Print Assumptions C16_zstd_raw_frames_roundtrip.
+Theorem C16_zstd_model_roundtrip_any_rechunking : forall (skip once : bool), (once = true -> skip = true) ->
+  forall (chunks rechunk : list (list Z)),
+  concat rechunk = payload (concat (zs_compress chunks)) ->
+  In Completed (concat (zs_compress chunks)) /\
+  payload (concat (zs_decompress skip once rechunk)) = concat chunks /\
+  In Completed (concat (zs_decompress skip once rechunk)) /\
+  ~ In Error (concat (zs_decompress skip once rechunk)).
+Proof. exact zs_roundtrip_any_rechunking. Qed.
+Print Assumptions C16_zstd_model_roundtrip_any_rechunking.
+Theorem C16_zstd_model_truncation_is_error : forall (skip once : bool), (once = true -> skip = true) ->
+  forall (chunks rechunk : list (list Z)) (suf : list Z),
+  suf <> [] ->
+  concat rechunk ++ suf = payload (concat (zs_compress chunks)) ->
+  In Error (concat (zs_decompress skip once rechunk)) /\
+  ~ In Completed (concat (zs_decompress skip once rechunk)).
+Proof. exact zs_truncation_is_error. Qed.
+Print Assumptions C16_zstd_model_truncation_is_error.
 
 (* non-vacuity *)
 Example C16_toy_compress_example :
